@@ -62,6 +62,23 @@ pub fn measure<T>(f: impl FnOnce() -> T) -> (T, usize) {
     (r, peak.saturating_sub(base))
 }
 
+/// the input that is about to be executed: if the code under test aborts the process (allocation failure,
+/// stack overflow) the driver finds it here
+static CUR_PATH: std::sync::Mutex<Option<PathBuf>> = std::sync::Mutex::new(None);
+pub fn set_marker_path(p: PathBuf) {
+    *CUR_PATH.lock().unwrap() = Some(p);
+}
+fn mark(v: &Value) {
+    if let Some(p) = CUR_PATH.lock().unwrap().as_ref() {
+        let _ = std::fs::write(p, serde_json::to_vec(v).unwrap());
+    }
+}
+pub fn clear_marker() {
+    if let Some(p) = CUR_PATH.lock().unwrap().as_ref() {
+        let _ = std::fs::remove_file(p);
+    }
+}
+
 fn rnd(x: &mut u64) -> u64 {
     *x = x.wrapping_mul(6364136223846793005).wrapping_add(1442695040888963407);
     *x >> 17
@@ -116,6 +133,7 @@ pub fn run_range(scratch: &Path, out: &mut Out, tier: &str, seed: u64) {
         for &sb in &bounds {
             for &eb in &bounds {
                 let (sv, ev) = (bound_val(sb), bound_val(eb));
+                mark(&json!({"ev": "range", "L": l, "s": sb, "e": eb}));
                 let (res, alloc) = measure(|| catch_unwind(AssertUnwindSafe(|| cas.get_range(&key, sv, ev))));
                 let line = match res {
                     Err(_) => json!({"ev": "range", "L": l, "s": sb, "e": eb, "st": "panic", "offs": [], "len": 0, "alloc": alloc, "bytes_ok": false}),
@@ -245,6 +263,38 @@ pub fn run_blob(scratch: &Path, out: &mut Out, tier: &str, seed: u64) {
             "file_ok": std::fs::read(&file).ok().is_some_and(|b| b == content)}));
         cas.remove(&key).unwrap();
     }
+    // many CONSECUTIVE commits of small distinct contents (the location of a blob must not depend on what was
+    // committed before it): every file must sit at the path derived from its own hash
+    let nsmall = if tier == "quick" { 20_000 } else { 200_000 };
+    let mut batch_bad = 0;
+    let mut first_bad = json!(null);
+    let mut live: Vec<u32> = vec![];
+    for i in 0..nsmall {
+        let content: Vec<u8> = rnd(&mut s).to_le_bytes().iter().chain(&(i as u64).to_le_bytes()).copied().collect();
+        let expect = blake3::hash(&content);
+        key += 1;
+        let mut tx = cas.put(key).unwrap();
+        tx.write(&content).unwrap();
+        let fin = tx.finish();
+        let hx: String = expect.as_bytes().iter().map(|b| format!("{b:02x}")).collect();
+        let file = root.join("cas").join(&hx[0..2]).join(&hx[2..4]).join(&hx[4..]);
+        let ok = fin.is_ok() && std::fs::read(&file).ok().is_some_and(|b| b == content) && cas.get(&key).ok().flatten().is_some_and(|b| b[..] == content[..]);
+        if !ok {
+            batch_bad += 1;
+            if first_bad.is_null() {
+                first_bad = json!({"i": i, "hex": hx, "finish_ok": fin.is_ok()});
+            }
+        }
+        live.push(key);
+        if live.len() == 500 {
+            out.emit(&json!({"ev": "blobbatch", "n": 500, "bad": batch_bad, "first_bad": first_bad.to_string()}));
+            batch_bad = 0;
+            first_bad = json!(null);
+            for k in live.drain(..) {
+                let _ = cas.remove(&k);
+            }
+        }
+    }
     drop(cas);
     let _ = std::fs::remove_dir_all(&root);
     // ---- hash <-> path
@@ -318,6 +368,7 @@ fn err_kind(e: &str) -> &'static str {
 }
 
 fn dec_op_line(bytes: &[u8], why: &str) -> Value {
+    mark(&json!({"ev": "dec_op", "bytes": bytes}));
     let (r, alloc) = measure(|| catch_unwind(|| verif::codec_deserialize_wal_op(bytes)));
     let res = match r {
         Err(_) => json!({"st": "panic", "op": {"t": "", "key": [], "hash": [], "size": [], "keys": []}}),
@@ -328,6 +379,7 @@ fn dec_op_line(bytes: &[u8], why: &str) -> Value {
 }
 
 fn dec_snap_line(bytes: &[u8], why: &str) -> Value {
+    mark(&json!({"ev": "dec_snap", "bytes": bytes}));
     let (r, alloc) = measure(|| catch_unwind(|| verif::codec_deserialize_index(bytes)));
     let empty = json!({"ver": [], "ents": []});
     let res = match r {
